@@ -22,6 +22,11 @@ func (r RemoveIntersections) Process(schemas []*ast.Schema) ([]*ast.Schema, erro
 }
 
 func (r RemoveIntersections) processSchema(v *Visitor, schema *ast.Schema) (*ast.Schema, error) {
+	// objects are looked up by name within the schema being processed: the
+	// bookkeeping must not leak into the schemas processed afterwards.
+	clear(r.objectsToRemove)
+	clear(r.arraysToFix)
+
 	var foundErr error
 	schema.Objects.Iterate(func(key string, value ast.Object) {
 		if value.Type.IsRef() {
